@@ -7,6 +7,7 @@ import (
 	"go/token"
 	"go/types"
 	"sort"
+	"strconv"
 	"strings"
 
 	"golang.org/x/tools/go/ssa"
@@ -15,7 +16,7 @@ import (
 func init() {
 	register(&propDef{
 		id:      "C40",
-		explain: "Structural necessary conditions of 'LBClient routes to the least loaded client, bounds penalties and never panics': (R1) in the selection loop of LBClient.get the selected client and the keys recorded for it (its load and its completed-request total) are replaced together on every path of an iteration - a candidate recorded with the keys of another client makes later comparisons wrong; the selection condition depends on both keys; (E1) penalty pairing: incPenalty keeps one unit exactly when it returns true (it gives the unit back itself when the bound is exceeded, under a comparison with the bound), and the caller schedules exactly one decrement for every unit kept, on every path; (R3) get returns nil exactly when there is no client, every caller tests for nil and reports ErrNoAvailableClients, and no explicit panic is reachable through static calls from the Do* methods. (R4) every assignment of the candidate list LBClient.cs derives from the list's own previous content (append / filter / reslice), so the lazy initialisation cannot drop clients registered through AddClient before the first call. (E8) LBClient.cs is accessed under LBClient.mu only and its elements only through a header taken while the lock is held. Not decided: optimality of the choice under concurrent updates, timing of the 3 s penalty expiry.",
+		explain: "Structural necessary conditions of 'LBClient routes to the least loaded client, bounds penalties and never panics': (R1) in the selection loop of LBClient.get the selected client and the keys recorded for it (its load and its completed-request total) are replaced together on every path of an iteration - a candidate recorded with the keys of another client makes later comparisons wrong; the selection condition depends on both keys; (E1) penalty pairing: incPenalty keeps one unit exactly when it returns true (taken by an atomic add, given back when the bound is exceeded, or by a compare-and-swap; at every 'kept' return the comparisons guarding it bound the counter after the increment by maxPenalty), and the caller schedules exactly one decrement for every unit kept, on every path; (R3) get returns nil exactly when there is no client, every caller tests for nil and reports ErrNoAvailableClients, and no explicit panic is reachable through static calls from the Do* methods. (R4) every assignment of the candidate list LBClient.cs derives from the list's own previous content (append / filter / reslice), so the lazy initialisation cannot drop clients registered through AddClient before the first call. (E8) LBClient.cs is accessed under LBClient.mu only and its elements only through a header taken while the lock is held. Not decided: optimality of the choice under concurrent updates, timing of the 3 s penalty expiry.",
 		run:     runC40,
 	})
 	register(&propDef{
@@ -213,19 +214,107 @@ func runC40(p *Prog, r *Report) {
 				}
 				return pairDelta{-99}, [4]bool{true}, true
 			}}
+		// a unit may also be taken by a successful compare-and-swap of the counter from m to m+1
+		casNew := func(v ssa.Value) (ssa.Value, bool) {
+			c, ok := v.(*ssa.Call)
+			if !ok {
+				return nil, false
+			}
+			f := c.Call.StaticCallee()
+			if f == nil || f.Pkg == nil || f.Pkg.Pkg.Path() != "sync/atomic" || !strings.HasPrefix(f.Name(), "CompareAndSwap") || len(c.Call.Args) != 3 {
+				return nil, false
+			}
+			if fieldPathLast(c.Call.Args[0]) != "penalty" {
+				return nil, false
+			}
+			if bo, ok := c.Call.Args[2].(*ssa.BinOp); ok && bo.Op == token.ADD && bo.X == c.Call.Args[1] {
+				if k, isK := constInt(bo.Y); isK && k == 1 {
+					return bo, true
+				}
+			}
+			return nil, false
+		}
+		sp2.branch = func(x *Explorer, st *State, cond ssa.Value, taken bool, from *ssa.BasicBlock) {
+			pos, v := stripNot(cond)
+			if _, ok := casNew(v); ok && taken == pos {
+				st.N[0]++
+			}
+		}
 		runPairing(p, sp2).report(p, r, sp2)
-		// the give-back in incPenalty is under a comparison with the bound
-		boundOK := false
-		allCalls(inc, func(b *ssa.BasicBlock, c ssa.CallInstruction) {
-			if isCallTo(c, dec) {
-				for _, g := range guardsOf(b) {
-					if strings.Contains(g.Atom, "const:300") && g.Pol {
-						boundOK = true
+		// the bound: wherever incPenalty reports that it kept the unit, the counter's value after the increment is at
+		// most maxPenalty - decided from the comparisons that guard the 'true' return (an upper bound of the value
+		// tested, plus the step when the tested value is the one before the increment)
+		bound := int64(-1)
+		if cv, ok := constOfObj(p.byPath[rootPkg].Types, "maxPenalty"); ok {
+			if v, err := strconv.ParseInt(cv.ExactString(), 10, 64); err == nil {
+				bound = v
+			}
+		}
+		// the post-increment value: the result of the atomic add, or the new value of the compare-and-swap
+		var posts []ssa.Value
+		for _, b := range inc.Blocks {
+			for _, in := range b.Instrs {
+				if c, ok := in.(*ssa.Call); ok {
+					if k, isAdd := addDelta(c); isAdd && k == 1 {
+						posts = append(posts, c)
+					}
+					if nv, isCas := casNew(c); isCas {
+						posts = append(posts, nv)
 					}
 				}
 			}
-		})
-		r.Check("E1", "incPenalty refuses the unit only above the bound of 300 outstanding penalties", boundOK, p.Pos(inc.Pos()), "the give-back inside incPenalty is not controlled by a comparison with the constant bound 300")
+		}
+		nkept, boundOK := 0, bound > 0 && len(posts) > 0
+		detail := ""
+		for _, b := range inc.Blocks {
+			rt, ok := b.Instrs[len(b.Instrs)-1].(*ssa.Return)
+			if !ok {
+				continue
+			}
+			rr := returnResults(rt)
+			if len(rr) != 1 || staticAbs(rr[0]) != True {
+				continue
+			}
+			nkept++
+			for _, post := range posts {
+				// upper bound of post from the guards of this return
+				base, step := post, int64(0)
+				if bo, ok := post.(*ssa.BinOp); ok && bo.Op == token.ADD {
+					if k, isK := constInt(bo.Y); isK {
+						base, step = bo.X, k
+					}
+				}
+				ub := int64(1) << 40
+				for _, g := range guardsOf(b) {
+					bo, ok := g.Cond.(*ssa.BinOp)
+					if !ok || bo.X != base {
+						continue
+					}
+					k, isK := constInt(bo.Y)
+					if !isK {
+						continue
+					}
+					switch {
+					case bo.Op == token.GTR && !g.Pol, bo.Op == token.LEQ && g.Pol:
+						if k < ub {
+							ub = k
+						}
+					case bo.Op == token.GEQ && !g.Pol, bo.Op == token.LSS && g.Pol:
+						if k-1 < ub {
+							ub = k - 1
+						}
+					}
+				}
+				if ub+step > bound {
+					boundOK = false
+					detail = fmt.Sprintf("at the 'kept' return the counter after the increment can be as large as %d (tested value <= %d, step %d), the bound is %d", ub+step, ub, step, bound)
+					if ub >= int64(1)<<40 {
+						detail = "the 'kept' return is not guarded by an upper bound on the counter"
+					}
+				}
+			}
+		}
+		r.Check("E1", "incPenalty keeps a unit only while the counter, the new unit included, does not exceed maxPenalty", boundOK && nkept > 0, p.Pos(inc.Pos()), detail)
 		// DoDeadline: every kept unit schedules exactly one decrement
 		nret, badp := 0, 0
 		var witp []string
